@@ -37,7 +37,7 @@ PROPERTIES = {
     ),
     "C05": dict(
         modules=["contracts.c05_result_fields", "contracts.c01_results", "contracts.c04_modules", "contracts.c01_inline"],
-        bounded=[_bounded.lazy("contracts.e2e_results", "bounded_results")],
+        bounded=[_bounded.lazy("contracts.e2e_results", "bounded_results"), _bounded.lazy("contracts.e2e_fuzz", "bounded_generated_operations")],
         explanation="result field type translator against the image spec by structural induction (non-abstract positions), "
                     "directive handling, typename literal",
         assumptions=["rejection of corrupted payloads by the emitted annotations is pydantic's (assumed contract)"],
@@ -143,7 +143,8 @@ PROPERTIES = {
     ),
     "C01": dict(
         modules=["contracts.c01_results", "contracts.c05_result_fields", "contracts.c04_modules", "contracts.c01_inline"],
-        bounded=[_bounded.lazy("contracts.e2e_results", "bounded_results"), _bounded.lazy("contracts.e2e_pruning", "bounded_pruned_packages")],
+        bounded=[_bounded.lazy("contracts.e2e_results", "bounded_results"), _bounded.lazy("contracts.e2e_pruning", "bounded_pruned_packages"),
+                 _bounded.lazy("contracts.e2e_fuzz", "bounded_generated_operations")],
         explanation="union / non-abstract translators and field implementation under contract; acceptance, typed instances and round trip by the reference-executor stand-in",
         assumptions=["pydantic validates the emitted annotation forms as their names say (assumed; exercised by the stand-in)"],
     ),
